@@ -49,6 +49,8 @@ def cts(t):
 
 
 def child_coq(n):
+    if n['t'] == 'g' and not n['children'] and not n.get('filters'):
+        return "CEmptyGroup"
     if n['t'] == 'g':
         return ("(CGroup %s {| gb_obj := %s; gb_abs := %s; gb_stroke := %s; gb_abs_stroke := %s; gb_layer := %s; gb_abs_layer := %s |})"
                 % (cts(n['ts']), cbox(n['bbox']), cbox(n['abs_bbox']), cbox(n['sbbox']), cbox(n['abs_sbbox']), cbox(n['lbbox']), cbox(n['abs_lbbox'])))
@@ -168,9 +170,10 @@ def source_text(doc):
 
 
 def use_transform_class(src):
-    """KNOWN class use_transform_twice: the document has a `use`, `symbol` or nested `svg` element - the elements that
-    use_node::convert_children turns into groups - carrying its own non-identity `transform` attribute."""
-    for m in re.finditer(r"<(?:\w+:)?(use|symbol|svg)\b([^>]*)>", src):
+    """KNOWN class use_transform_twice: the document has a `use` or `symbol` element - the elements that
+    use_node::convert_children turns into groups - carrying its own non-identity `transform` attribute.
+    (Nested `svg` elements were part of the class until fb5447a.)"""
+    for m in re.finditer(r"<(?:\w+:)?(use|symbol)\b([^>]*)>", src):
         tm = re.search(r"\btransform\s*=\s*\"([^\"]*)\"|\btransform\s*=\s*'([^']*)'", m.group(2))
         if tm:
             t = parse_transform(tm.group(1) or tm.group(2) or '')
@@ -256,8 +259,9 @@ def gen_docs(rng, n):
         elif k == 2:    # use / symbol / nested svg without their own transform attribute
             body = ('<defs><symbol id="s" viewBox="0 0 50 50">%s id="ps" %s transform="scale(0.25)"/></symbol>'
                     '<g id="d1">%s id="pd" %s/></g></defs><g id="g1" transform="%s"><use id="u1" xlink:href="#s" x="20" y="30" width="100" height="80"/>'
-                    '<use id="u2" xlink:href="#d1" x="10" y="5"/><svg id="n1" x="60" y="60" width="90" height="70" viewBox="0 0 200 200">%s id="pn" %s/></svg></g>'
-                    % (sh, stroke, rng.choice(shapes), stroke, t1, rng.choice(shapes), stroke))
+                    '<use id="u2" xlink:href="#d1" x="10" y="5"/><svg id="n1" x="60" y="60" width="90" height="70" viewBox="0 0 200 200" %s>%s id="pn" %s/></svg></g>'
+                    % (sh, stroke, rng.choice(shapes), stroke, t1, rng.choice(['', 'transform="translate(7 3)"', 'transform="rotate(15) scale(1.2)" opacity="0.6"']),
+                       rng.choice(shapes), stroke))
         elif k == 3:    # filters: region larger and smaller than the content
             reg = rng.choice(['x="-0.3" y="-0.3" width="1.6" height="1.6"', 'x="0.25" y="0.25" width="0.5" height="0.5"',
                               'filterUnits="userSpaceOnUse" x="20" y="30" width="150" height="90"'])
@@ -282,6 +286,185 @@ def gen_docs(rng, n):
     return docs
 
 
+def cli_stage(ctx, rng, quick, binp, docs):
+    """Id queries of the command-line tool (crates/resvg/src/main.rs): `--query-all` must print the library's boxes, the
+    `--export-id` image must have the size of that box and the pixels of resvg::render_node, and with --export-area-page
+    the node must appear where the full rendering paints it."""
+    import subprocess
+    import concurrent.futures as cf
+    from props import c20
+    rb, ub, blog = c20.build_cli(ctx)
+    if rb is None:
+        ctx.violation("the resvg command-line tool does not build from the current tree", dict(build_log=blog[-1500:]), found_input=False)
+        return
+    wd = os.path.join(ctx.workdir, 'cli')
+    os.makedirs(wd, exist_ok=True)
+    fonts = c20.fonts_args()
+    ndocs = 45 if quick else 400
+    pick = rng.sample(docs, min(ndocs, len(docs)))
+    # always: generated documents with stroked shapes / text carrying ids
+    extra = []
+    for i in range(8 if quick else 40):
+        sw = rng.choice([4, 10, 7])
+        extra.append(('<svg %s width="120" height="100"><g id="cg%d" transform="translate(%d %d)"><rect id="cr%d" x="30" y="40" width="40" height="20" '
+                      'fill="#3a7" stroke="#205" stroke-width="%d"/><path id="cl%d" d="M 5 5 L 60 30" stroke="red" stroke-width="%d" fill="none"/></g>'
+                      '<text id="ct%d" x="10" y="90" font-family="Noto Sans" font-size="14" stroke="blue" stroke-width="2">Ag</text></svg>'
+                      % (NS, i, rng.below(20), rng.below(20), i, sw, i, sw, i), 'cli%d' % i))
+    pick = pick + extra
+    files = []
+    for k, (d, name) in enumerate(pick):
+        if d.startswith('@'):
+            files.append(d[1:])
+        else:
+            pth = os.path.join(wd, 'doc%d.svg' % k)
+            with open(pth, 'w') as f:
+                f.write(d)
+            files.append(pth)
+    wouts = ctx.rvh_batch(binp, 'c19-write', ["-\t%s" % d for d, _ in pick], per_item_timeout=40)
+
+    def sh(args, timeout=60):
+        try:
+            p = subprocess.run([rb] + fonts + args, stdout=subprocess.PIPE, stderr=subprocess.PIPE, timeout=timeout, cwd=vlib.TESTS_DIR)
+            return p.returncode, p.stdout.decode('utf-8', 'replace'), p.stderr.decode('utf-8', 'replace')
+        except subprocess.TimeoutExpired:
+            return 124, '', 'timeout'
+    stats = dict(documents=0, query_lines=0, exports=0, export_identical=0, page_checked=0)
+    jobs = []
+    reported = [0]
+    for k, ((d, name), w) in enumerate(zip(pick, wouts)):
+        try:
+            r = json.loads(w)
+        except (TypeError, ValueError):
+            continue
+        if 'nodes' not in r:
+            continue
+        withid = [n for n in r['nodes'] if n['id']]
+        if not withid:
+            continue
+        stats['documents'] += 1
+        # ---- --query-all vs accessors
+        rc, out, err = sh(['--query-all', files[k]])
+        lines = [l for l in out.splitlines() if l.count(',') >= 4]
+        got = []
+        for l in lines:
+            parts = l.rsplit(',', 4)
+            try:
+                got.append((parts[0], [float(x) for x in parts[1:]]))
+            except ValueError:
+                pass
+        exp = [(n['id'], n['lbbox'] if n['lbbox'] is not None else n['abs_bbox']) for n in withid]
+        stats['query_lines'] += len(got)
+        ctx.note_case("query-all/%s/%d" % (name, len(got)))
+        okq = rc == 0 and len(got) == len(exp) and all(
+            g[0] == e[0] and all(abs(a - b) <= 0.0011 + 1e-6 * abs(b) for a, b in zip(g[1], e[1])) for g, e in zip(got, exp))
+        if not okq and reported[0] < 3:
+            reported[0] += 1
+            bad = next(((g, e) for g, e in zip(got, exp) if g[0] != e[0] or any(abs(a - b) > 0.0011 + 1e-6 * abs(b) for a, b in zip(g[1], e[1]))), None)
+            ctx.violation("--query-all of %s does not print the boxes of the library accessors (first difference: %s)" % (name, bad),
+                          dict(op='cli-query-all', argv=[rb] + fonts + ['--query-all', files[k]], doc=d, stdout=out[:1500], stderr=err[:300],
+                               expected=exp[:20], exit=rc))
+        counts = {}
+        for n in withid:
+            counts[n['id']] = counts.get(n['id'], 0) + 1
+        cand = [n for n in withid if counts[n['id']] == 1 and n['lbbox'] is not None and n['lbbox'][2] <= 1500 and n['lbbox'][3] <= 1500
+                and not re.search(r"[\t\n]", n['id'])]
+        for n in (rng.sample(cand, 3) if len(cand) > 3 else cand):
+            jobs.append((k, d, name, n))
+
+    def export(job):
+        k, d, name, n = job
+        p1 = os.path.join(wd, 'e%d_%d.png' % (k, abs(hash(n['id'])) % 100000))
+        p2 = p1[:-4] + '_page.png'
+        a1 = ['--export-id', n['id'], files[k], p1]
+        a2 = ['--export-id', n['id'], '--export-area-page', files[k], p2]
+        r1 = sh(a1)
+        r2 = sh(a2)
+        return p1, p2, a1, a2, r1, r2
+    with cf.ThreadPoolExecutor(max_workers=12) as ex:
+        exps = list(ex.map(export, jobs))
+    payloads = ["-\t%s\t%s\t%s\t%s" % (d, n['id'], e[0], e[1]) for (k, d, name, n), e in zip(jobs, exps)]
+    louts = ctx.rvh_batch(binp, 'cli-export', payloads, per_item_timeout=60)
+    crops = []
+    for (k, d, name, n), e, o in zip(jobs, exps, louts):
+        p1, p2, a1, a2, r1, r2 = e
+        for pth in (p1, p2):
+            try:
+                os.remove(pth)
+            except OSError:
+                pass
+        try:
+            r = json.loads(o)
+        except (TypeError, ValueError):
+            r = {'error': 'unparsable'}
+        if 'expected_size' not in r:
+            continue
+        stats['exports'] += 1
+        ctx.note_case("cli-export/%s/%s" % (name, n['id']))
+        rp = dict(op='cli-export', doc=d, id=n['id'], argv_export=[rb] + fonts + a1, argv_page=[rb] + fonts + a2, result=r,
+                  exit_export=r1[0], stderr_export=r1[2][:300], exit_page=r2[0], stderr_page=r2[2][:300], node=n)
+        ex_ = r.get('export', {})
+        problems = []
+        if 'size' not in ex_:
+            problems.append("--export-id wrote no readable PNG (exit %s: %s)" % (r1[0], r1[2][:120]))
+        elif ex_['size'] != r['expected_size']:
+            problems.append("--export-id image is %sx%s but the node's absolute layer box %s (what --query-all prints) gives %sx%s"
+                            % (ex_['size'][0], ex_['size'][1], r['lbbox'], r['expected_size'][0], r['expected_size'][1]))
+        elif ex_['ndiff_vs_render_node'] != 0:
+            problems.append("--export-id image differs from resvg::render_node in %d pixels" % ex_['ndiff_vs_render_node'])
+        else:
+            stats['export_identical'] += 1
+        pg = r.get('page', {})
+        if 'size' not in pg:
+            problems.append("--export-area-page wrote no readable PNG (exit %s: %s)" % (r2[0], r2[2][:120]))
+        elif pg['size'] != pg['expected_size']:
+            problems.append("--export-area-page image is %s, the page is %s" % (pg['size'], pg['expected_size']))
+        elif pg['ref_ok'] and min(r['expected_size']) >= 4 and 'filter' not in source_text(d):
+            # (filters depend on the canvas they are rendered into: C19's business; here CLI == render_node is checked above)
+            stats['page_checked'] += 1
+            a, b = pg['extent'], pg['ref_extent']
+            # the export window: the layer box placed at integer page coordinates (truncation), size to_int_size
+            wx, wy = int(r['lbbox'][0]), int(r['lbbox'][1])
+            win = (max(0, wx), max(0, wy), min(pg['size'][0], wx + r['expected_size'][0]), min(pg['size'][1], wy + r['expected_size'][1]))
+            bclip = None
+            if b is not None and min(b[2], win[2]) > max(b[0], win[0]) and min(b[3], win[3]) > max(b[1], win[1]):
+                bclip = (max(b[0], win[0]), max(b[1], win[1]), min(b[2], win[2]), min(b[3], win[3]))
+            def thin(e):
+                return e is not None and (e[2] - e[0] <= 2 or e[3] - e[1] <= 2)
+            if (a is None and thin(bclip)) or (bclip is None and thin(a)):
+                pass        # a sliver of at most 2 px at the page / window border: integer placement of the CLI (truncation)
+            elif (a is None) != (bclip is None) or (a is not None and any(abs(x - y) > 2 for x, y in zip(a, bclip))):
+                problems.append("with --export-area-page the node is painted at %s, the full rendering paints it at %s (inside the export window %s: %s)"
+                                % (a, b, win, bclip))
+            elif b is not None and (b[0] < win[0] - 2 or b[1] < win[1] - 2 or b[2] > win[2] + 2 or b[3] > win[3] + 2):
+                crops.append((k, d, name, n, rp, a, b, win))
+        if problems and reported[0] < 6:
+            reported[0] += 1
+            text = "CLI id export of %s %r from %s: %s" % (n['kind'], n['id'], name, '; '.join(problems))
+            src = source_text(d)
+            if use_transform_class(src):
+                ctx.known_or_violation('use_transform_twice', text, rp)
+            else:
+                ctx.violation(text, rp)
+    # painted content that lies outside the export window (the node's layer box): the export crops it
+    stats['exports_that_crop'] = len(crops)
+    nrep = 0
+    for k, d, name, n, rp, a, b, win in crops:
+        text = ("exporting %s %r of %s by id crops painted content: the full rendering paints it at %s, the export window (absolute layer box) is %s"
+                % (n['kind'], n['id'], name, b, win))
+        src = source_text(d)
+        if use_transform_class(src):
+            ctx.known_or_violation('use_transform_twice', text, rp)
+        elif re.search(r"stroke-dasharray", src):
+            ctx.known_or_violation('dash_caps_outside_stroke_box', text, rp)
+        elif n['kind'] == 'path' and re.search(r"\b(rotate|skewX|skewY|matrix)\s*\(", src):
+            # the export window of a path is its absolute stroke box: too small under skew / rotation with scale
+            ctx.known_or_violation('stroke_box_skew', text, rp)
+        elif nrep < 3:
+            nrep += 1
+            ctx.violation(text, rp)
+    ctx.cov['cli'] = stats
+
+
 def run(ctx):
     rng = ctx.rng
     quick = ctx.tier == 'quick'
@@ -289,6 +472,7 @@ def run(ctx):
         "tiny-skia-path: tight path bounds, stroker (stroke boxes), Rect::transform hand-modelled as the bounds of the four mapped corners",
         "text layout boxes (usvg::text) and image decoding: unmodelled, covered by the painted-pixels oracle only",
         "tools/gen_bbox.py anchors (regular expressions over tree/mod.rs, tree/geom.rs, parser/*.rs, resvg/src/lib.rs)",
+        "crates/resvg/src/main.rs (query_all, render_svg --export-id): unmodelled, compared with the library by the CLI stage",
     ]
     ctx.assumptions = ["finite coordinates; f32 rounding of transformed boxes idealised (comparison tolerance 1e-4 relative)",
                        "leaf boxes (tight bounds, stroke outline, text layout) are taken as given by the model; the oracle checks them against pixels",
@@ -302,7 +486,7 @@ def run(ctx):
         return
 
     files = vlib.corpus_files()
-    wit = [os.path.join(vlib.VERIF, 'corpus', 'witness', f) for f in ('F21.svg', 'F14.svg', 'C12-background.svg', 'C12-stroke-skew.svg', 'C12-dash-caps.svg')]
+    wit = [os.path.join(vlib.VERIF, 'corpus', 'witness', f) for f in ('F21.svg', 'F14.svg', 'C12-background.svg', 'C12-stroke-skew.svg', 'C12-dash-caps.svg', 'C12-nested-svg-transform.svg', 'C12-leaf-export-crop.svg')]
     wit = [w for w in wit if os.path.exists(w)]
     sample = list(files) if not quick else rng.sample(files, 500)
     must = [f for f in files if re.search(r"structure/(use|symbol|svg|image)/|painting/marker/|filters/filter/|masking/", f)]
@@ -417,6 +601,8 @@ def run(ctx):
                 reported += 1
     ctx.cov['paint'] = tot
     ctx.add_sample(dict(op='node-paint', doc=docs[-1][0][:400]))
+
+    cli_stage(ctx, rng, quick, binp, docs)
 
     if not proof_ok and not ctx.violations:
         ctx.violation("C12 proof obligations no longer check: %s %s" % (res['failed'] + res['audit'], [x['name'] + ': ' + str(x['err']) for x in broken]),
